@@ -256,6 +256,14 @@ def acquireP (cfg : Cfg) (find : Bytes → Bytes) (isTarget : Bytes → Bool) (e
       if isTarget p then .ret ()
       else (sendInputP cfg escalate T).bind fun _ => acquireP cfg find isTarget escalate T f
 
+/-- operations run one after the other, each with its own context (the navigation steps of
+    `AcquirePriv` — `GetPrompt`, escalate / de-escalate `SendInput` — followed by the payload
+    sends); the result is the last one's -/
+def seqP : List (Prog Bytes) → Prog Bytes
+  | [] => .ret []
+  | [p] => p
+  | p :: q :: ps => p.bind fun _ => seqP (q :: ps)
+
 /-! ## error mapping at the public boundary -/
 
 /-- what a worker goroutine hands back to the waiting caller -/
